@@ -77,6 +77,8 @@ func checkC16(c Case) *Failure {
 		return c16StringRoundTrip(c)
 	case "keyvalue":
 		return c16KeyValue(c)
+	case "keyvalue-context":
+		return c16KeyValueContext(c)
 	}
 	f, _ := compareQueryWithRef("C16", c, nil)
 	return f
@@ -91,10 +93,12 @@ func c16StringRoundTrip(c Case) *Failure {
 		}
 		return implQuery(p, nil, runCfg{vars: map[string]any{"a": v}, tz: true})
 	}
-	direct := run("$a" + c.Extra["prefix"])
+	// the matching method applied to the value itself ...
+	direct := run("$a" + c.Extra["prefix"] + c.Extra["back"])
 	if direct.Class != "ok" {
 		return nil
 	}
+	// ... and to its .string() rendering must agree
 	viaString := run("$a" + c.Extra["prefix"] + ".string()" + c.Extra["back"])
 	if viaString.Class != "ok" || canonList(viaString.Items) != canonList(direct.Items) {
 		return &Failure{Sig: "C16/string-does-not-convert-back/" + c.Extra["back"], Expected: "$a" + c.Extra["prefix"] + " => " + direct.String(), Observed: "$a" + c.Extra["prefix"] + ".string()" + c.Extra["back"] + " => " + viaString.String()}
@@ -170,6 +174,33 @@ func c16KeyValue(c Case) *Failure {
 			first = o.Items
 		} else if canon(first) != canon(o.Items) {
 			return &Failure{Sig: "C16/keyvalue/ids-not-stable", Expected: canon(first), Observed: canon(o.Items)}
+		}
+	}
+	return nil
+}
+
+// c16KeyValueContext: ids of an object do not depend on what was evaluated (and failed) before in
+// the same execution: every triple delivered after a filter that itself ran .keyvalue() on earlier,
+// failing elements equals the triple the plain path delivers for that object.
+func c16KeyValueContext(c Case) *Failure {
+	doc := mustDoc(c.Doc, "float64")
+	plain, _, _ := parseCached("$[*].keyvalue()")
+	filt, err, pan := parseCached(c.Path)
+	if err != nil || pan != "" {
+		return &Failure{Sig: "C16/keyvalue/parse", Expected: "parses", Observed: fmt.Sprint(err, pan)}
+	}
+	a := implQuery(plain, doc, runCfg{})
+	b := implQuery(filt, doc, runCfg{silent: c.Silent})
+	if a.Class != "ok" || b.Class != "ok" {
+		return nil
+	}
+	have := map[string]bool{}
+	for _, it := range a.Items {
+		have[canon(it)] = true
+	}
+	for _, it := range b.Items {
+		if !have[canon(it)] {
+			return &Failure{Sig: "C16/keyvalue/ids-depend-on-earlier-evaluation", Expected: "a triple of " + canon(a.Items), Observed: canon(it) + " from " + c.Path}
 		}
 	}
 	return nil
@@ -260,4 +291,33 @@ func runC16(r *Run) {
 			}
 		}
 	})
+	// ids do not depend on earlier (failing) evaluation
+	objs := []string{`{"a":"x"}`, `{"a":1}`, `{"a":"2","b":3}`, `{"b":{"a":"y"}}`}
+	var ctxDocs []string
+	for _, x := range objs {
+		ctxDocs = append(ctxDocs, "["+x+"]")
+		for _, y := range objs {
+			ctxDocs = append(ctxDocs, "["+x+","+y+"]")
+			for _, z := range objs {
+				ctxDocs = append(ctxDocs, "["+x+","+y+","+z+"]")
+			}
+		}
+	}
+	ctxPaths := []string{
+		`$[*] ? (exists(@.keyvalue().value.double())).keyvalue()`, `$[*] ? (@.keyvalue().value.double() > 0).keyvalue()`,
+		`$[*] ? ((@.keyvalue().value.double() > 0) is unknown).keyvalue()`, `$[*] ? (exists(@.keyvalue().value.keyvalue())).keyvalue()`,
+		`$[*] ? (exists(@.keyvalue().value.integer()) || exists(@.a)).keyvalue()`, `strict $[*] ? (exists(@.keyvalue().value.double())).keyvalue()`,
+		`$[*] ? (!(exists(@.keyvalue().value.double()))).keyvalue()`,
+	}
+	for _, d := range ctxDocs {
+		for _, p := range ctxPaths {
+			for _, silent := range []bool{false, true} {
+				c := Case{Rule: "keyvalue-context", Path: p, Doc: d, Silent: silent}
+				r.evals.Add(1)
+				if f := c16KeyValueContext(c); f != nil {
+					r.Fail(c, f)
+				}
+			}
+		}
+	}
 }
